@@ -1536,7 +1536,8 @@ class nx_learn_dst_load (nx_learn_spec_dst):
     self.data = data
 
   def __len__ (self):
-    return ((self.n_bits+15) // 16) * 2
+    # NXM header of the destination field plus its 16 bit offset
+    return 6
 
 
 class nx_learn_dst_output (nx_learn_spec_dst):
